@@ -1,10 +1,10 @@
-(* C19: shutdown timeline model. Line: shutdown <W> <G> | <arrivals...> | <service times...>  (ns, relative to the signal)
-   Output: close deadline exit_time exit_code accepted... completes... *)
+(* C19: shutdown timeline model. Line: shutdown <wait_nonneg 0/1> <W> <G> | <arrivals...> | <service times...>  (ns, relative to the signal)
+   Output: 0 (refused at start-up) or 1 close deadline exit_time exit_code accepted... completes... *)
 open Model
 open Common
 
 let () = register "shutdown" (fun toks ->
   match split_bar toks with
-  | [[w; g]; arr; svc] ->
-    print_zs (entry_shutdown (z_of_string w) (z_of_string g) (List.map z_of_string arr) (List.map z_of_string svc))
+  | [[nn; w; g]; arr; svc] ->
+    print_zs (entry_shutdown (nn = "1") (z_of_string w) (z_of_string g) (List.map z_of_string arr) (List.map z_of_string svc))
   | _ -> print_endline "?bad shutdown line")
